@@ -550,7 +550,7 @@ class Abstractor:
 # ----------------------------------------------------------------------------------------------
 
 SRC_TAGS = {"m1": "M1", "m2": "M2", "m3": "M3", "ix": "IX", "ib": "IB", "in": "IN"}
-TARS = {"m2": "M2", "m3r": "M3", "ix": "IX"}
+TARS = {"m1": "M1", "m2": "M2", "m3r": "M3", "ix": "IX"}
 SRC_REFERRERS = {"M1": ["A1"]}          # referrers present in the source layout (mksrc)
 
 SCENARIOS = [
@@ -602,6 +602,35 @@ SCENARIOS = [
     ("PB", "tag_delete:cache+gc"), ("PB", "retag:c2:cache+gc"), ("PB", "tag_delete:nest+gc"),
     ("E", "copy:cache:ib+gc"), ("P1", "copy:cache:ib+gc"), ("E", "copy:nest:in+gc"), ("PB", "import:v3:m3r+gc"),
 ]
+# copy SOURCE = a registry (the in-process model registry zzverif/simreg holding the same catalogue): the blob tasks of
+# ImageCopy then depend on the caller's context and on the connection; base scenarios run uninterrupted, their
+# interrupted variants (context cancelled / connection error / status 500 / truncated reply at request k, the process
+# living on; ~c<k> cancel, ~e<k> connection error, ~h<k> status 500, ~t<k> truncated reply) are generated from the number of requests the base run made (interrupted_variants)
+REG_SCENARIOS = [("E", "rcopy:v1:m1+gc"), ("P1", "rcopy:v2:m2+gc"), ("E", "rcopy:ix:ix+gc")]
+REG_THOROUGH = [("P2", "rcopy:v3:m3+gc"), ("P1", "rcopy:ix:ix+gc"), ("E", "rcopy:cache:ib+gc")]
+# the digest being written is ALREADY in the layout under another tag (second tag on an image, re-push, copy / import
+# of an image that is there, an index whose children are there): whatever an interrupted writer undoes must not
+# hurt the other owners of the digest-named files
+SHARED_SCENARIOS = [("P1", "put_tag:v2:M1"), ("PX", "put_index:ix2:IX"), ("P1", "copy:v2:m1+gc"), ("P1", "import:v2:m1+gc"),
+                    ("PX", "put_child:M1")]
+INTR = re.compile(r"~[ceht]\d+")
+
+
+def interrupted_variants(runs, rng, thorough):
+    out = []
+    for r in runs:
+        if not r.op.startswith("rcopy:") or INTR.search(r.op):
+            continue
+        n = int(r.res.get("nreq", 0))
+        ks = list(range(1, n + 1))
+        cancel = ks if (thorough or n <= 5) else sorted(rng.sample(ks, 4))
+        if not ks:
+            continue
+        other = [(c, k) for c in "eht" for k in sorted(rng.sample(ks, min(3, n)))] if thorough else [(rng.choice("eht"), rng.choice(ks))]
+        out += [(r.start, "%s~c%d" % (r.op, k)) for k in cancel] + [(r.start, "%s~%s%d" % (r.op, c, k)) for c, k in other]
+    return out
+
+
 # size of the existing layout state: index.json padded to just above / below round sizes (two tags, like P2)
 BIG_STATES = {"L1Mp": "P2", "L4Mm": "P2", "L4Mp": "P2", "L8Mp": "P2", "L16Mm": "P2", "L16Mp": "P2"}   # -> same content in (D)
 BIG_QUICK = [("L1Mp", "put_tag:v3:M3+gc"), ("L4Mm", "put_tag:v3:M3+gc"), ("L4Mp", "put_tag:v3:M3+gc"),
@@ -681,7 +710,7 @@ def op_info(ab, op, pre):
         if s:
             h.update(subj=s, fbtag=fallback_tag(ab, s), norefs=[a[1]])
             h["tgt"] = sorted(set(h["tgt"] + [h["fbtag"]]))
-    elif kind == "copy":
+    elif kind in ("copy", "rcopy"):
         h.update(optag=a[1], opobj=SRC_TAGS[a[2]], tgt=[a[1]])
     elif kind == "copy_ref":
         o = SRC_TAGS[a[2]]
@@ -727,6 +756,7 @@ def run_scenario(env, sid, start, op, crashed=None):
     operation below is then the RETRY, and its own prefixes are states after a second crash)"""
     ab, drv, src, work = env["ab"], env["drv"], env["src"], env["work"]
     r = Run(sid, start, op)
+    r.ab = ab
     base = os.path.join(work, sid)
     d = os.path.join(base, "d")
     os.makedirs(base)
@@ -763,11 +793,13 @@ def run_scenario(env, sid, start, op, crashed=None):
     counts = {}
     for c in calls:
         counts[c[1]] = counts.get(c[1], 0) + 1
+        counts[(c[0], c[1])] = counts.get((c[0], c[1]), 0) + 1
         ev = rp.step(c)
         if ev is None:
             continue
         ev["cls"] = ab.file_class(ev["path"])
         ev["sysname"], ev["sysidx"] = c[1], counts[c[1]]
+        ev["tididx"] = counts[(c[0], c[1])]           # strace counts `when=` per thread
         ev["facts"] = facts_of(ab, fs, info)
         r.events.append(ev)
         r.snaps.append(fs.clone())
@@ -807,7 +839,7 @@ def select_points(runs, rng, budget):
     return set(must + extra), len(seen)
 
 
-def probe_all(env, runs, selected):
+def probe_all(env, runs, selected, faults=()):
     """Materialise the selected crash directories, let c07drv open each with a fresh real client,
     re-run the interrupted operation and probe again; abstract the directory after the retry."""
     ab, work = env["ab"], env["work"]
@@ -825,6 +857,8 @@ def probe_all(env, runs, selected):
                 r.snaps[k].dump(d2)
                 jobs.append({"id": "%s#%d~f%d" % (r.sid, k, i), "dir": d2, "op": op2, "src": env["src"]})
         jobs.append({"id": "%s#end" % r.sid, "dir": r.final_dir, "op": "", "src": env["src"]})
+    for f in faults:
+        jobs.append({"id": f.id, "dir": f.dir, "op": f.run.op, "src": env["src"]})
     jf, of = os.path.join(work, "jobs.jsonl"), os.path.join(work, "probe.jsonl")
     with open(jf, "w") as f:
         for j in jobs:
@@ -844,8 +878,12 @@ def probe_all(env, runs, selected):
     return out, dirs
 
 
-def build_trace(env, r, probes, dirs, selected):
+def build_trace(env, r, probes, dirs, selected, faults=()):
     ab = env["ab"]
+    fat = {}
+    for f in faults:
+        if f.run is r:
+            fat.setdefault(f.k, []).append(f)
     pre = ab.abstract(r.pre_fs)
     info = op_info(ab, r.op, dict(zip(pre["tag_t"], pre["tag_d"])))
     hdr = dict(info)
@@ -857,6 +895,21 @@ def build_trace(env, r, probes, dirs, selected):
         ev = {"ev": "sys", "k": k, "call": e["call"], "cls": e["cls"]}
         ev.update(e["facts"])
         evs.append(ev)
+        for f in fat.get(k, []):
+            # the k-th mutating call FAILED with f.errno instead (directory as after call k-1), the process went on
+            # through its error path and returned: the directory it left, a fresh client on it, then the repetition
+            pf = probes[f.id]
+            fe = {"ev": "fault", "k": k, "errno": f.errno, "ok": int(f.res["ok"]), "fcall": f.call, "fcls": f.cls}
+            fe.update(facts_of(ab, f.fs, info))
+            fe.update(ab.fresh_facts(pf["fresh"], info["subj"]))
+            evs.append(fe)
+            fr = {"ev": "fretry", "k": k, "errno": f.errno, "ok": 1 if pf["retry_ok"] else 0, "fcall": f.call, "fcls": f.cls}
+            fr.update(facts_of(ab, FS.load(f.dir), info))
+            fr.update(ab.fresh_facts(pf["after"], info["subj"]))
+            evs.append(fr)
+            r.notes["x%d" % k] = {"errno": f.errno, "failed_call": "%s %s" % (f.call, f.path), "op_err": f.res.get("err", "")[:300],
+                                  "fresh": pf["fresh"].get("notes", [])[:4], "retry_err": pf.get("retry_err", ""),
+                                  "after": pf["after"].get("notes", [])[:4]}
         if (r.sid, k) not in selected:
             continue
         pr = probes["%s#%d" % (r.sid, k)]
@@ -940,6 +993,12 @@ def signature(t, ei, obl):
         return "%s/%s@end%s" % (kind, obl, sfx)
     k = ev["k"]
     se = next(e for e in t["events"] if e["ev"] == "sys" and e["k"] == k)
+    if ev["ev"] in ("fault", "fretry"):
+        # the state BEFORE the failed call is the one the error path starts from
+        sp = next((e for e in t["events"] if e["ev"] == "sys" and e["k"] == k - 1), None)
+        mk, ix = (sp["marker"], sp["index"]) if sp else (t["header"]["marker"], t["header"]["index"])
+        phase = "fault-" + ev["errno"] if ev["ev"] == "fault" else "fault-retry"
+        return "%s/%s@%s:%s:%s[marker=%s,index=%s]%s" % (kind, obl, phase, ev["fcall"], ev["fcls"], mk, ix, sfx)
     phase = {"sys": "crash", "fresh": "fresh", "retry": "retry", "follow": "then-" + ev.get("kind2", "")}[ev["ev"]]
     return "%s/%s@%s:%s:%s[marker=%s,index=%s]%s" % (kind, obl, phase, se["call"], se["cls"], se["marker"], se["index"], sfx)
 
@@ -973,10 +1032,10 @@ def prepare(ctx):
     return {"ab": ab, "drv": drv, "src": src, "work": work, "states": states, "root": root}
 
 
-def run_all(env, scenarios, par=12):
+def run_all(env, scenarios, par=12, first=0):
     def one(x):
         i, (st, op) = x
-        return run_scenario(env, "s%03d" % i, st, op)
+        return run_scenario(env, "s%03d" % (first + i), st, op)
     with concurrent.futures.ThreadPoolExecutor(par) as ex:
         return list(ex.map(one, list(enumerate(scenarios))))
 
@@ -1045,6 +1104,104 @@ def kill_confirm(env, runs, rng, n):
             raise vlib.ToolError("SIGKILL at %s #%d of %s %s leaves a directory that differs from the replayer's "
                                  "reconstruction: %s" % (e["sysname"], e["sysidx"], r.start, r.op, diff[:6]))
     return ok, inconclusive, points
+
+
+# ----------------------------------------------------------------------------------------------
+# interruption by an ERROR RETURN: the k-th mutating system call fails (disk full, file size limit, descriptor
+# table full, permission, I/O error), the process lives on and leaves through its error path (incl. the
+# Close / garbage collection a command line tool runs after a failed command)
+# ----------------------------------------------------------------------------------------------
+
+ERRNOS = {"openat": ["ENOSPC", "EMFILE", "EACCES", "EDQUOT"], "write": ["ENOSPC", "EFBIG", "EIO", "EDQUOT"],
+          "renameat": ["ENOSPC", "EACCES", "EIO"], "unlinkat": ["EACCES", "EBUSY", "EIO"], "mkdirat": ["ENOSPC", "EACCES", "EMLINK"]}
+
+
+class Fault:
+    pass
+
+
+def select_faults(runs, rng, budget):
+    """One fault point per class (operation kind, call, target class, was the written object already in the layout,
+    marker / index state there), then a seeded sample up to the budget."""
+    must, rest, seen = [], [], set()
+    for r in runs:
+        if r.second:
+            continue
+        pre_has = facts_of(r.ab, r.snaps[0], r.info)["has"]
+        for k, e in enumerate(r.events, 1):
+            if e["sysname"] not in ERRNOS:
+                continue
+            key = (r.info["kind"], e["call"], e["cls"], pre_has, e["facts"]["index"])
+            (rest if key in seen else must).append((r, k))
+            seen.add(key)
+    # when the classes exceed the budget: first those where the written digest was already there (what an error path
+    # undoes is then not its own), then the control files, the remainder by the seed
+    def prio(x):
+        r, k = x
+        e = r.events[k - 1]
+        return (0 if facts_of(r.ab, r.snaps[0], r.info)["has"] and r.info["kind"] not in ("blob_delete", "man_delete") else
+                1 if e["cls"] in ("index", "indextmp", "marker", "markertmp") else 2)
+    if len(must) >= budget:
+        must.sort(key=prio)
+        n2 = sum(1 for x in must if prio(x) < 2)
+        picks = must[:budget] if n2 >= budget else must[:n2] + vlib.sample(rng, must[n2:], budget - n2)
+    else:
+        picks = must + vlib.sample(rng, rest, budget - len(must))
+    return [(r, k, rng.choice(ERRNOS[r.events[k - 1]["sysname"]])) for r, k in picks], len(seen)
+
+
+def fault_runs(env, picks):
+    ab = env["ab"]
+
+    def one(x):
+        i, (r, k, errno) = x
+        e = r.events[k - 1]
+        f = Fault()
+        f.id, f.run, f.k, f.errno, f.hit, f.died, f.readside = "x%03d" % i, r, k, errno, 0, 0, 0
+        base = os.path.join(env["work"], f.id)
+        d = os.path.join(base, "d")
+        os.makedirs(base)
+        tmpl = os.path.join(env["states"], r.start)
+        if os.path.isdir(tmpl):
+            shutil.copytree(tmpl, d)
+        st = os.path.join(base, "strace.txt")
+        p = _sh(["strace", "-f", "-e", "trace=" + e["sysname"], "-e", "inject=%s:error=%s:when=%d" % (e["sysname"], errno, e["tididx"]),
+                 "-o", st, env["drv"], "-mode", "op", "-dir", d, "-src", env["src"], "-op", r.op, "-res", os.path.join(base, "res.json")],
+                cwd=base)
+        f.call, f.cls, f.path = e["call"], e["cls"], e["path"]
+        if p.returncode != 0 or not os.path.exists(os.path.join(base, "res.json")):
+            # the per-thread numbering made the error land in a call outside the layout (the driver's own result
+            # file, the source): not this dimension
+            if "(INJECTED)" not in open(st, errors="replace").read():
+                raise vlib.ToolError("driver failed under fault injection without an injected call (%s %s, %s %s): rc=%d %s"
+                                     % (r.start, r.op, e["sysname"], errno, p.returncode, p.stderr[-1500:]))
+            f.died = 1
+            return f
+        with open(st, errors="replace") as fh:
+            inj = [ln for ln in fh if "(INJECTED)" in ln]
+        f.hit = len(inj)
+        if inj and e["sysname"] != "write":
+            # the call that really failed (the numbering of concurrent calls differs from run to run)
+            qs = re.findall(r'"([^"]*)"', inj[0])
+            if qs:
+                path = qs[-1] if e["sysname"] == "renameat" else qs[0]
+                path = os.path.normpath(path if os.path.isabs(path) else os.path.join(base, path))
+                rel = path[len(d) + 1:] if path.startswith(d + "/") else ("" if path == d else None)
+                if e["sysname"] == "openat" and not re.search(r"O_CREAT|O_WRONLY|O_RDWR|O_TRUNC|O_APPEND", inj[0]):
+                    f.hit = 0          # an open for READING failed: read-side faults are not this dimension (design.d/C07.md)
+                    f.readside = 1
+                elif rel is None:
+                    f.hit = 0          # a call outside the layout failed: not this dimension
+                else:
+                    f.cls, f.path = ab.file_class(rel), rel
+        with open(os.path.join(base, "res.json")) as fh:
+            f.res = json.load(fh)
+        f.dir = d
+        f.fs = FS.load(d)
+        f.fs.root = d
+        return f
+    with concurrent.futures.ThreadPoolExecutor(12) as ex:
+        return list(ex.map(one, list(enumerate(picks))))
 
 
 def binding_demo(ctx, traces, dtraces, matched, mode):
@@ -1133,9 +1290,9 @@ def run(ctx):
     ctx.load_known = _known_loader(ctx)
     env = prepare(ctx)
     thorough = ctx.thorough
-    scenarios = list(SCENARIOS) + BIG_QUICK
+    scenarios = list(SCENARIOS) + BIG_QUICK + SHARED_SCENARIOS + REG_SCENARIOS
     if thorough:
-        scenarios += BIG_THOROUGH
+        scenarios += BIG_THOROUGH + REG_THOROUGH
         # more interleavings of the concurrent operations
         scenarios += [sc for sc in SCENARIOS if sc[1].split(":")[0] in CONCURRENT] * 3
     if ctx.replay:
@@ -1143,10 +1300,16 @@ def run(ctx):
             rp = json.load(f)["replay"]
         scenarios = [(rp["scenario"]["start"], rp["scenario"]["op"])]
     runs = run_all(env, scenarios)
+    if not ctx.replay:
+        # interruption by cancellation / connection faults at request k of a copy from a registry: k ranges over the
+        # requests the uninterrupted copy made
+        variants = interrupted_variants(runs, rng, thorough)
+        runs += run_all(env, variants, first=len(scenarios))
+        scenarios = scenarios + variants
     # an uninterrupted operation that fails is no violation by itself, but the scenario did not exercise what it was
     # written for: tooling error - unless the same tree also shows real violations, which must not be hidden by it
     not_run = ["%s %s: %s" % (r.start, r.op, r.res["err"][:160]) for r in runs
-               if not r.res["ok"] and r.op.split(":")[0] not in EXPECT_FAIL]
+               if not r.res["ok"] and r.op.split(":")[0] not in EXPECT_FAIL and not INTR.search(r.op)]
     mode = marker_mode(runs)
     first_level = list(runs)
     if thorough and not ctx.replay:
@@ -1156,7 +1319,7 @@ def run(ctx):
 
         def second(x):
             i, (r, k) = x
-            return run_scenario(env, "t%03d" % i, "%s~%s@%d" % (r.start, r.op, k), r.op, crashed=(r, k))
+            return run_scenario(env, "t%03d" % i, "%s~%s@%d" % (r.start, r.op, k), INTR.sub("", r.op), crashed=(r, k))
         with concurrent.futures.ThreadPoolExecutor(12) as ex:
             runs += list(ex.map(second, list(enumerate(picks))))
     # really kill the process at sampled system calls and compare what is left with the replayer's reconstruction
@@ -1169,55 +1332,76 @@ def run(ctx):
         vlib.log("C07: %-40s %6.1fs" % (what, now - tick[0]))
         tick[0] = now
     lap("%d operations under strace" % len(runs))
+    # interruption by an error return of the k-th mutating system call (the process lives on)
+    if ctx.replay:
+        want = rp.get("rejected_event", {}).get("errno")
+        picks = [(r, k, want or rng.choice(ERRNOS[e["sysname"]])) for r in first_level for k, e in enumerate(r.events, 1)
+                 if e["sysname"] in ERRNOS]
+        nfclasses = len(picks)
+    else:
+        picks, nfclasses = select_faults(first_level, rng, 700 if thorough else 260)
+    faults_all = fault_runs(env, picks)
+    faults = [f for f in faults_all if f.hit >= 1]
+    lap("%d runs with a failing system call (%d hit the layout)" % (len(faults_all), len(faults)))
 
-    # 1. the design spec, exhaustively, against the property monitor
-    mc = []
-    if not ctx.replay:
-        # baseline of (D) = the code since 5457c02 (MarkerMode = ifbad): must hold with crashes anywhere
-        mc.append(ctx.tlc("LayoutFSMC", "C07_mc_quick.cfg", timeout=900,
-                          label="baseline (marker written only when missing/unreadable): 80 scenarios, crash anywhere + retry"))
-        rc_ = ctx.tlc("LayoutFSMC", "C07_mc_refcopyq.cfg", allow_violation=True, timeout=900,
-                      label="image copy with referrers (counterexample expected: interrupted referrer copy not repaired)")
-        mc.append(rc_)
-        mc.append(ctx.tlc("LayoutFSMC", "C07_mc_follow.cfg", timeout=900,
-                          label="baseline, histories: crash state of one operation, then import / copy of the image concerned"))
-        gcc = ctx.tlc("LayoutFSMC", "C07_mc_gccopy.cfg", allow_violation=True, timeout=900,
-                      label="copy of an index after an interrupted sweep (counterexample expected: child with a leftover manifest file is skipped)")
-        mc.append(gcc)
-        # the as-found switch (MarkerMode = rewrite) with its expected counterexample: always in thorough, and in
-        # quick when this tree is observed to rewrite oci-layout in place (e.g. the fix reverted)
-        s4 = None
-        if thorough or mode == "rewrite":
-            s4 = ctx.tlc("LayoutFSMC", "C07_mc_asfound_s4.cfg", allow_violation=True, timeout=900,
-                         label="as-found switch: populated layouts, crash while oci-layout is truncated (counterexample expected: C07-1)")
-            mc.append(s4)
-        if thorough:
-            mc.append(ctx.tlc("LayoutFSMC", "C07_mc_t2.cfg", timeout=2400,
-                              label="baseline, the retry may be killed as well (two crashes)"))
-            sim = ctx.tlc("LayoutFSMC", "C07_sim_ix.cfg", timeout=1200,
-                          workers=8, simulate="num=%d" % 200, depth=400, extra=["-seed", str(ctx.seed)],
-                          label="baseline, copy of a two-image index, one goroutine per blob: 1600 random behaviours (BFS does not finish)")
-            m = re.search(r"The number of states generated: (\d+)", sim["output"])
-            if not m:
-                raise vlib.ToolError("simulation run printed no state count:\n" + sim["output"][-2000:])
-            sim["generated"] = int(m.group(1))          # simulation mode has no distinct-state count
-            ctx.tlc_runs[-1]["generated"] = sim["generated"]
-            mc.append(sim)
-            mc.append(ctx.tlc("LayoutFSMC", "C07_mc_asfound.cfg", timeout=900,
-                              label="as-found switch, crashes excluded from the truncation window: holds (the window was the only hazard)"))
-    states = sum(r["distinct"] for r in mc)
-    trans = sum(r["generated"] for r in mc)
-    lap("TLC on the design spec (%d runs)" % len(mc))
+    # 1. the design spec, exhaustively, against the property monitor (in a background thread, while the crash states
+    # of the real code are probed: TLC and the probes do not depend on each other)
+    def design_runs():
+        mc, rc_, gcc, s4 = [], None, None, None
+        if not ctx.replay:
+            # baseline of (D) = the code since 5457c02 (MarkerMode = ifbad): must hold with crashes anywhere
+            mc.append(ctx.tlc("LayoutFSMC", "C07_mc_quick.cfg", timeout=900,
+                              label="baseline (marker written only when missing/unreadable): 80 scenarios, crash anywhere + retry"))
+            rc_ = ctx.tlc("LayoutFSMC", "C07_mc_refcopyq.cfg", allow_violation=True, timeout=900,
+                          label="image copy with referrers (counterexample expected: interrupted referrer copy not repaired)")
+            mc.append(rc_)
+            mc.append(ctx.tlc("LayoutFSMC", "C07_mc_follow.cfg", timeout=900,
+                              label="baseline, histories: crash state of one operation, then import / copy of the image concerned"))
+            mc.append(ctx.tlc("LayoutFSMC", "C07_mc_fault.cfg" if thorough else "C07_mc_faultq.cfg", timeout=1800,
+                              label="baseline, interruption without death: error return of a system call / failing source reader "
+                                    "(cancelled context), error path + Close, then the retry (%s)" % ("two faults" if thorough else "one fault, subset")))
+            gcc = ctx.tlc("LayoutFSMC", "C07_mc_gccopy.cfg", allow_violation=True, timeout=900,
+                          label="copy of an index after an interrupted sweep (counterexample expected: child with a leftover manifest file is skipped)")
+            mc.append(gcc)
+            # the as-found switch (MarkerMode = rewrite) with its expected counterexample: always in thorough, and in
+            # quick when this tree is observed to rewrite oci-layout in place (e.g. the fix reverted)
+            if thorough or mode == "rewrite":
+                s4 = ctx.tlc("LayoutFSMC", "C07_mc_asfound_s4.cfg", allow_violation=True, timeout=900,
+                             label="as-found switch: populated layouts, crash while oci-layout is truncated (counterexample expected: C07-1)")
+                mc.append(s4)
+            if thorough:
+                mc.append(ctx.tlc("LayoutFSMC", "C07_mc_t2.cfg", timeout=2400,
+                                  label="baseline, the retry may be killed as well (two crashes)"))
+                sim = ctx.tlc("LayoutFSMC", "C07_sim_ix.cfg", timeout=1200,
+                              workers=8, simulate="num=%d" % 200, depth=400, extra=["-seed", str(ctx.seed)],
+                              label="baseline, copy of a two-image index, one goroutine per blob: 1600 random behaviours (BFS does not finish)")
+                m = re.search(r"The number of states generated: (\d+)", sim["output"])
+                if not m:
+                    raise vlib.ToolError("simulation run printed no state count:\n" + sim["output"][-2000:])
+                sim["generated"] = int(m.group(1))          # simulation mode has no distinct-state count
+                ctx.tlc_runs[-1]["generated"] = sim["generated"]
+                mc.append(sim)
+                mc.append(ctx.tlc("LayoutFSMC", "C07_mc_asfound.cfg", timeout=900,
+                                  label="as-found switch, crashes excluded from the truncation window: holds (the window was the only hazard)"))
+
+        return mc, rc_, gcc, s4
+    mc_pool = concurrent.futures.ThreadPoolExecutor(1)
+    mc_future = mc_pool.submit(design_runs)
 
     # 2. crash states of the real code -> facts -> (P)
     budget = None if (thorough or ctx.replay) else 1500
     selected, nclasses = select_points(runs, rng, budget)
-    probes, dirs = probe_all(env, runs, selected)
-    traces = [build_trace(env, r, probes, dirs, selected) for r in runs]
+    probes, dirs = probe_all(env, runs, selected, faults)
+    traces = [build_trace(env, r, probes, dirs, selected, faults) for r in runs]
     byid = {r.sid: r for r in runs}
     lap("probes + retries of %d crash states" % len(selected))
     viol = validate_traces(ctx, traces, "impl")
     lap("TLC validation against (P)")
+    mc, rc_, gcc, s4 = mc_future.result()
+    mc_pool.shutdown()
+    states = sum(r["distinct"] for r in mc)
+    trans = sum(r["generated"] for r in mc)
+    lap("TLC on the design spec (%d runs; waited for after the probes)" % len(mc))
     rejected = set()
     sigs = {}
     for ti, ei, obls in viol:
@@ -1241,14 +1425,17 @@ def run(ctx):
             groups_reported.add(group)
         where = "after the operation returned" if ev["ev"] == "end" else \
             "%s state after mutating call %d (%s %s)" % ({"sys": "crash", "fresh": "crash", "retry": "retried",
-                                                          "follow": "crash + %s," % ev.get("op2", "")}[ev["ev"]], k,
+                                                          "follow": "crash + %s," % ev.get("op2", ""),
+                                                          "fault": "error-path (%s returned instead of the call)" % ev.get("errno"),
+                                                          "fretry": "error-path (%s) + retried" % ev.get("errno")}[ev["ev"]],
+                                                         k - 1 if ev["ev"] in ("fault", "fretry") else k,
                                                          r.events[k - 1]["call"], r.events[k - 1]["path"])
         what = "%s violated %s of %s on start state %s (%d x): %s" % (
             obl, where, t["scenario"]["op"], t["scenario"]["start"], len(sigs[sig]),
             json.dumps({x: ev[x] for x in ("marker", "index", "tag_t", "tag_d", "badfiles", "dangling", "tl", "res_t",
                                            "res_d", "unres", "broken", "refs", "has", "untagged") if x in ev}))
         ctx.report(sig, what, {"scenario": t["scenario"], "header": t["header"], "rejected_event": ev,
-                               "crash_point": k, "notes": r.notes.get(k, {}),
+                               "crash_point": k, "notes": r.notes.get("x%d" % k if ev["ev"] in ("fault", "fretry") else k, {}),
                                "syscalls": [[e["call"], e["path"]] for e in r.events[:(k or len(r.events))]],
                                "cmd": "tools/check C07 --replay <this file>"})
     if not_run:
@@ -1264,6 +1451,11 @@ def run(ctx):
         "crash_point_classes": nclasses,
         "evaluations": sum(len(t["events"]) for t in traces),
         "follow_up_operations": sum(1 for t in traces for e in t["events"] if e["ev"] == "follow"),
+        "syscall_fault_runs": len(faults_all), "syscall_fault_runs_hit": len(faults), "syscall_fault_classes": nfclasses,
+        "syscall_fault_runs_outside_layout": sum(1 for f in faults_all if f.died),
+        "syscall_fault_runs_read_side_skipped": sum(1 for f in faults_all if f.readside),
+        "syscall_fault_errnos": sorted(set(f.errno for f in faults)),
+        "interrupted_copy_scenarios": sorted(op for _, op in scenarios if INTR.search(op)),
         "distinct_nontrivial": nclasses,
         "rule": "an evaluation = one observed directory state (crash state after a prefix of the mutating system calls of "
                 "one real operation, the same state read by a fresh client, the state after the operation was repeated "
@@ -1312,7 +1504,7 @@ def run(ctx):
     nbase = len(SCENARIOS)
     dts = [d for i, d in enumerate(dts)
            if not (d["header"]["kind"] in CONCURRENT and d["header"]["o"] in ("IX", "IN")) or (thorough and i < nbase)]
-    dts = [d for d in dts if not any(x in byid[d["id"]].op for x in NOT_IN_D)]
+    dts = [d for d in dts if not any(x in byid[d["id"]].op for x in NOT_IN_D) and not INTR.search(byid[d["id"]].op)]
     done, drift = validate_dtraces(ctx, dts, "ifbad", "dtrace")
     cov["design_traces_matched"] = len(done)
     cov["design_traces_total"] = len(dts)
@@ -1354,7 +1546,7 @@ def run(ctx):
 
 def dtrace_of(ab, r):
     info = r.info
-    hdr = {"start": BIG_STATES.get(r.start, r.start), "kind": info["kind"], "t": info["optag"], "o": info.get("dobj", info["opobj"]),
+    hdr = {"start": BIG_STATES.get(r.start, r.start), "kind": {"rcopy": "copy"}.get(info["kind"], info["kind"]), "t": info["optag"], "o": info.get("dobj", info["opobj"]),
            "gc": 1 if "+gc" in r.op else 0}
     evs = []
     for e in r.events:
